@@ -45,6 +45,19 @@ def build_content(d, allow_empty, cr_ok):
             elif c == 2:
                 s = s + "\rtail" + str(i)  # lone CR inside the line
         lines.append(s)
+    # size class: total size around / beyond typical block sizes (8 KiB buffers, 64 KiB read blocks)
+    size = d(12, "content.size")
+    target = {8: 8192, 9: 65536, 10: 65536 * 2, 11: 65536 + 8192}.get(size)
+    if target is not None and lines:
+        target += [-1, 0, 1, 17, 4000][d(5, "content.size.off")]
+        cur = sum(len(l.encode("utf-8")) + 1 for l in lines)
+        spread = d(2, "content.size.spread") == 1
+        if cur < target:
+            if spread and len(lines) > 1:
+                per = (target - cur) // len(lines)
+                lines = [l + "p" * per for l in lines]
+                cur = sum(len(l.encode("utf-8")) + 1 for l in lines)
+            lines[d(len(lines), "content.size.at")] += "P" * max(0, target - cur)
     final_nl = d(3, "content.final_nl") != 0
     if lines and lines[-1] == "" and not final_nl:
         # an unterminated empty last line does not exist: "a\n" + "" is just "a\n"
@@ -339,7 +352,7 @@ class Spec:
         "file encodings: UTF-8 (the check runs with PYTHONUTF8=1)",
         "sampling, not enumeration",
     ]
-    PROBES = ["interleaved-iteration", "custom-index-iteration", "short-read", "long-line", "cr-content"]
+    PROBES = ["interleaved-iteration", "custom-index-iteration", "short-read", "long-line", "cr-content", "file-over-64KiB"]
     RULE = ("one run = seeded file content (empty lines, no final newline, multi-byte, >8KiB line, CR/CRLF), variant, "
             "index source (built/list/file/subset/permutation/multiset), 1-4 clients with their operation lists, "
             "short-read plan, plus the seeded interleaving of the clients; non-trivial = at least two clients and at "
@@ -374,6 +387,8 @@ class Spec:
             probes["long-line"] = 1
         if plan["cr"]:
             probes["cr-content"] = 1
+        if sum(len(l.encode("utf-8")) + 1 for l in plan["lines"]) > 65536:
+            probes["file-over-64KiB"] = 1
         res = {"verdict": "violation" if viol else "ok", "violations": viol,
                "digest": sched.digest(), "signature": sched.signature(), "steps": sched.step,
                "switches": sched.switches, "preemptions": sched.switches, "sync_events": sched.step,
